@@ -146,6 +146,7 @@ const (
 )
 
 const prelude = `(define-sort F64 () (_ FloatingPoint 11 53))
+(define-sort RV () Int)
 (declare-datatypes ((Str 0)) (((mkstr (sarr (Array Int Int)) (soff Int) (slen Int)))))
 (declare-datatypes ((Slice 0)) (((mkslice (sl_arr Int) (sl_off Int) (sl_len Int) (sl_cap Int)))))
 (declare-datatypes ((Iface 0)) (((mkiface (itag Int) (ival Int)))))
